@@ -485,6 +485,70 @@ def singular_ops(op):
     return [[s, n, clean_val(v)] for n, v in op[1]]
 
 
+# --------------------------------------------------------------------------- public methods the check knows nothing about
+
+KNOWN_PUBLIC = set(PLURAL) | set(PLURAL.values()) | {
+    "make_parameter_dynamic", "make_variable_static", "add_derived", "update_derived", "remove_derived", "add_reaction",
+    "update_reaction", "remove_reaction", "add_readout", "remove_readout", "add_surrogate", "update_surrogate",
+    "remove_surrogate", "add_data", "update_data", "remove_data",
+    # readers the model answers (Mxl.C03.modelledEntries) and readers named out of scope (Mxl.C03.outOfScope)
+    "ids", "get_initial_conditions", "get_parameter_values", "get_derived_parameter_names", "get_derived_variable_names",
+    "get_derived_parameters", "get_derived_variables", "get_args", "get_right_hand_side", "get_fluxes", "__call__",
+    "get_stoichiometries", "get_stoichiometries_of_variable", "get_variable_names", "get_parameter_names",
+    "get_reaction_names", "get_readout_names", "get_surrogate_output_names", "get_surrogate_reaction_names",
+    "get_unused_parameters", "get_raw_variables", "get_raw_parameters", "get_raw_derived", "get_raw_reactions",
+    "get_raw_readouts", "get_raw_surrogates", "get_arg_names", "get_raw_stoichiometries_of_variable",
+    "get_args_time_course", "get_fluxes_time_course", "get_right_hand_side_time_course",
+    "__repr__", "parameters", "variables", "derived", "reactions", "check_units",
+}
+
+
+def unknown_public():
+    """public functions / properties written in the body of the real `class Model` that are neither a mutator the
+    model has an op for nor a reader it answers / names as out of scope (dataclass-generated dunders are not
+    written in model.py and do not count)"""
+    import inspect
+
+    from mxlpy import Model
+
+    out = []
+    for n, v in vars(Model).items():
+        if n.startswith("_") and not (n.startswith("__") and n.endswith("__")):
+            continue
+        f = v.fget if isinstance(v, property) else v
+        if not inspect.isfunction(f) or not f.__code__.co_filename.endswith("model.py"):
+            continue
+        if n not in KNOWN_PUBLIC:
+            out.append(n)
+    return sorted(out)
+
+
+# argument lists tried on a method nobody has described (names of the BASE model of c03gen and new names)
+PROBE_ARGS = [[], ["k"], ["x"], ["r1"], ["dp"], ["n1"], ["k", "5"], ["x", "5"], ["k", "n1"], ["x", "n1"], ["r1", "n1"],
+              ["n1", "5"], [{"k": "5"}], [{"x": "5"}], [["k"]], [["x"]]]
+
+
+def _probe_arg(a):
+    if isinstance(a, dict):
+        return {k: _probe_arg(v) for k, v in a.items()}
+    if isinstance(a, list):
+        return [_probe_arg(v) for v in a]
+    try:
+        return F(a)
+    except (ValueError, ZeroDivisionError):
+        return a
+
+
+def apply_call(m, op):
+    """["call", name, args]: a public method the model does not know, called with plain arguments"""
+    from mxlpy import Model
+
+    if isinstance(vars(Model).get(op[1]), property):
+        getattr(m, op[1])
+    else:
+        getattr(m, op[1])(*[_probe_arg(a) for a in op[2]])
+
+
 # --------------------------------------------------------------------------- real model -> wire
 
 
